@@ -75,6 +75,31 @@ func ruleREC1(c *Ctx) {
 						case exprString(rhs) == "nil" && fv.Name() == "_qlasym":
 							ok = true
 							why = "nil (queued slot only)"
+						case paramIndex(info, fd, rhs) >= 0:
+							// a parameter: every call site must bind it to a Token or an Error
+							pi := paramIndex(info, fd, rhs)
+							fnObj, _ := info.Defs[fd.Name].(*types.Func)
+							nSites, badSite := 0, ""
+							for _, f2 := range ti.AllFiles {
+								ast.Inspect(f2, func(m ast.Node) bool {
+									call, isCall := m.(*ast.CallExpr)
+									if !isCall || fnObj == nil || calleeFunc(info, call) != fnObj || pi >= len(call.Args) {
+										return true
+									}
+									nSites++
+									at := info.TypeOf(call.Args[pi])
+									if at == nil || !(types.Identical(at, tokT.Type()) || types.Identical(at, errT.Type()) || fieldNamed(info, call.Args[pi], "_lasym") || fieldNamed(info, call.Args[pi], "_qlasym")) {
+										badSite = fmt.Sprintf("%s passes `%s`", ti.Pos(call.Pos()), exprString(call.Args[pi]))
+									}
+									return true
+								})
+							}
+							if nSites > 0 && badSite == "" {
+								ok = true
+								why = fmt.Sprintf("parameter `%s`, bound to a Token or an Error at all %d call sites", exprString(rhs), nSites)
+							} else {
+								why = "parameter `" + exprString(rhs) + "` of type " + vt.String() + " (" + badSite + ")"
+							}
 						default:
 							why = "`" + exprString(rhs) + "` of type " + vt.String()
 						}
@@ -347,22 +372,24 @@ func ruleREC234(c *Ctx) {
 			}
 			nT++
 			blk := enclosingList(parents(rec), rs)
-			setLa, setSym, qLa, qSym := false, false, false, false
+			var before []ast.Stmt
 			for _, s := range blk {
 				if s.Pos() >= rs.Pos() {
 					break
 				}
-				if as, ok := s.(*ast.AssignStmt); ok && len(as.Lhs) == 1 {
-					switch {
-					case fieldNamed(info, as.Lhs[0], "_la") && exprString(as.Rhs[0]) == "ERROR":
-						setLa = true
-					case fieldNamed(info, as.Lhs[0], "_lasym") && info.TypeOf(as.Rhs[0]) != nil && namedTypeName(info.TypeOf(as.Rhs[0])) == "Error":
-						setSym = true
-					case fieldNamed(info, as.Lhs[0], "_qla") && fieldNamed(info, as.Rhs[0], "_la"):
-						qLa = !setLa
-					case fieldNamed(info, as.Lhs[0], "_qlasym") && fieldNamed(info, as.Rhs[0], "_lasym"):
-						qSym = !setSym
-					}
+				before = append(before, s)
+			}
+			setLa, setSym, qLa, qSym := false, false, false, false
+			for _, pa := range straightLineAssigns(ti, before) {
+				switch {
+				case fieldNamed(info, pa.lhs, "_la") && exprString(pa.rhs) == "ERROR":
+					setLa = true
+				case fieldNamed(info, pa.lhs, "_lasym") && info.TypeOf(pa.rhs) != nil && namedTypeName(info.TypeOf(pa.rhs)) == "Error":
+					setSym = true
+				case fieldNamed(info, pa.lhs, "_qla") && fieldNamed(info, pa.rhs, "_la"):
+					qLa = !pa.afterLa
+				case fieldNamed(info, pa.lhs, "_qlasym") && fieldNamed(info, pa.rhs, "_lasym"):
+					qSym = !pa.afterSym
 				}
 			}
 			if !(setLa && setSym && qLa && qSym) {
@@ -417,16 +444,22 @@ func ruleREC234(c *Ctx) {
 			"the Error is not built from the offending lookahead before tokens are skipped: a later token would be blamed")
 		if me, _ := ti.FuncDecl("_P._makeError"); me != nil {
 			okTok, okRow := false, false
+			meDefs := localDefs(info, me)
+			var expectedVal ast.Expr // what ends up in the Expected field, when set through a literal
 			ast.Inspect(me.Body, func(m ast.Node) bool {
 				switch x := m.(type) {
 				case *ast.KeyValueExpr:
 					if exprString(x.Key) == "Token" {
-						if t2, ok := x.Value.(*ast.TypeAssertExpr); ok && fieldNamed(info, t2.X, "_lasym") {
+						if t2, ok := ast.Unparen(resolveVia(info, meDefs, x.Value)).(*ast.TypeAssertExpr); ok && fieldNamed(info, t2.X, "_lasym") {
 							okTok = true
 						}
 					}
-				case *ast.AssignStmt:
-					if len(x.Rhs) == 1 && strings.HasSuffix(exprString(x.Rhs[0]), "Peek(0).State") {
+					if exprString(x.Key) == "Expected" {
+						expectedVal = x.Value
+					}
+				case *ast.SelectorExpr:
+					// the row is that of the state on top of the stack
+					if x.Sel.Name == "State" && strings.HasSuffix(exprString(x), "Peek(0).State") {
 						okRow = true
 					}
 				}
@@ -434,9 +467,23 @@ func ruleREC234(c *Ctx) {
 			})
 			okExp := false
 			if rowReaderOK(info, me.Body, "_actions") {
+				expObj := usesObj(info, expectedVal)
+				fromTable := func(e ast.Expr) bool {
+					ix, ok := stripConv(info, e).(*ast.IndexExpr)
+					if !ok {
+						return false
+					}
+					src := ast.Unparen(resolveVia(info, meDefs, ix.X))
+					if sl, ok := src.(*ast.SliceExpr); ok {
+						src = ast.Unparen(sl.X)
+					}
+					return exprString(src) == "_actions"
+				}
 				ast.Inspect(me.Body, func(m ast.Node) bool {
-					if call, ok := m.(*ast.CallExpr); ok && builtinName(info, call) == "append" && len(call.Args) == 2 && strings.HasSuffix(exprString(call.Args[0]), ".Expected") {
-						if ix, ok := stripConv(info, call.Args[1]).(*ast.IndexExpr); ok && exprString(ix.X) == "_actions" {
+					if call, ok := m.(*ast.CallExpr); ok && builtinName(info, call) == "append" && len(call.Args) == 2 {
+						toField := strings.HasSuffix(exprString(call.Args[0]), ".Expected")
+						toLocal := expObj != nil && usesObj(info, call.Args[0]) == expObj
+						if (toField || toLocal) && fromTable(call.Args[1]) {
 							okExp = true
 						}
 					}
@@ -531,6 +578,85 @@ func ruleREC234(c *Ctx) {
 			return true
 		})
 		c.check(okIter, "REC-4", variant+"/parse/iteration", ti.Pos(loop.Pos()), "an iteration of the parse loop that takes no action has run _recover", "the parse loop can iterate without shifting, reducing or recovering")
+		// REC-5: simulated reductions compose. The search simulates the automaton on the error
+		// terminal without touching the stack; a reduce step continues the simulation, so the
+		// state it takes the goto from must reflect the steps simulated so far: the simulated
+		// state itself, or a stack the same arm keeps up to date. Reading the untouched parse
+		// stack there ignores every earlier simulated step (the second reduction of a chain
+		// starts from a state the simulation has already left).
+		nGoto := 0
+		for _, rec := range tiScope(ti, rec, 2) {
+			recDefs := localDefs(info, rec)
+			recPar := parents(rec)
+			ast.Inspect(rec.Body, func(m ast.Node) bool {
+				as, ok := m.(*ast.AssignStmt)
+				if !ok || len(as.Rhs) != 1 {
+					return true
+				}
+				call := callNamed(info, as.Rhs[0], "_Find")
+				if call == nil || len(call.Args) != 3 || exprString(call.Args[0]) != "_goto" {
+					return true
+				}
+				inLoop := false
+				for q := recPar[as]; q != nil; q = recPar[q] {
+					if _, isFor := q.(*ast.ForStmt); isFor {
+						inLoop = true
+					}
+				}
+				if !inLoop {
+					return true
+				}
+				nGoto++
+				construct := variant + "/_recover/simulated-reduce-source"
+				target := usesObj(info, as.Lhs[0])
+				src := resolveVia(info, recDefs, call.Args[1])
+				readsStack, readsTarget := false, false
+				ast.Inspect(src, func(k ast.Node) bool {
+					if e, ok := k.(ast.Expr); ok {
+						if fieldNamed(info, e, "_stack") {
+							readsStack = true
+						}
+						if id, ok := e.(*ast.Ident); ok && target != nil && usesObj(info, id) == target {
+							readsTarget = true
+						}
+					}
+					return true
+				})
+				switch {
+				case readsTarget && !readsStack:
+					c.ok("REC-5", construct, ti.Pos(as.Pos()), "the goto of a simulated reduction starts from the simulated state")
+				case readsStack:
+					// acceptable only if the arm itself keeps the stack in step with the simulation
+					arm := enclosingBlock(recPar, as)
+					mutates := false
+					if arm != nil {
+						ast.Inspect(arm, func(k ast.Node) bool {
+							switch x := k.(type) {
+							case *ast.CallExpr:
+								if sel, ok := x.Fun.(*ast.SelectorExpr); ok && fieldNamed(info, sel.X, "_stack") && (sel.Sel.Name == "Pop" || sel.Sel.Name == "Push") {
+									mutates = true
+								}
+							case *ast.AssignStmt:
+								for _, l := range x.Lhs {
+									if fieldNamed(info, l, "_stack") {
+										mutates = true
+									}
+								}
+							}
+							return true
+						})
+					}
+					c.check(mutates, "REC-5", construct, ti.Pos(as.Pos()), "the goto source is read from a stack that the same arm pops/pushes in step with the simulation",
+						"the goto of a simulated reduction is taken from `"+exprString(src)+"`: the parse stack is not updated by the simulation, so a second simulated step starts from a state that ignores the first (recovery can announce success from a configuration the parser is not in, and parse() retries forever)")
+				default:
+					c.unres("REC-5", construct, ti.Pos(as.Pos()), "the goto source `%s` is neither the simulated state nor a stack read", exprString(src))
+				}
+				return true
+			})
+		}
+		if nGoto == 0 {
+			c.unres("REC-5", variant+"/_recover/simulated-reduce-source", ti.Pos(rec.Pos()), "no simulated reduction (goto lookup inside the search loop) found in _recover")
+		}
 	}
 }
 
@@ -658,23 +784,59 @@ func ruleBND2(c *Ctx) {
 	}
 	c.check(iSlice < iPop && sameExpr(sl.Args[0], pop.Args[0]) && sliceVar != "", rule, "template/parse/reduce/children-before-pop", ti.Pos(sl.Pos()),
 		"the children's bounds are taken with PeekSlice(termCount) before the same number of items is popped", "the children's bounds are not taken from the top termCount items before they are popped")
+	// two equivalent idioms for "the children that survive trimming":
+	//   re-slicing: the slice itself shrinks; survivors are S[0] .. S[len(S)-1], non-empty iff len(S) > 0
+	//   window:     lo, hi := 0, len(S); survivors are S[lo] .. S[hi-1], non-empty iff lo < hi
+	firstIdx, lastIdx := "0", "len("+sliceVar+") - 1"
+	nonEmpty := "len(" + sliceVar + ") > 0"
+	frontStep, backStep := sliceVar+" = "+sliceVar+"[1:]", sliceVar+" = "+sliceVar+"[:len("+sliceVar+") - 1]"
+	for _, s := range reduce.List {
+		as, ok := s.(*ast.AssignStmt)
+		if !ok || as.Tok != token.DEFINE || len(as.Lhs) != 2 || len(as.Rhs) != 2 {
+			continue
+		}
+		if v, isC := constInt(info, as.Rhs[0]); isC && v == 0 && exprString(as.Rhs[1]) == "len("+sliceVar+")" && s.Pos() > reduce.List[iSlice].Pos() {
+			lo, hi := exprString(as.Lhs[0]), exprString(as.Lhs[1])
+			// the window variables are only moved inwards: lo++ / hi-- are their only writes
+			okOnly := true
+			ast.Inspect(reduce, func(m ast.Node) bool {
+				switch x := m.(type) {
+				case *ast.AssignStmt:
+					if x != as {
+						for _, l := range x.Lhs {
+							if exprString(l) == lo || exprString(l) == hi {
+								okOnly = false
+							}
+						}
+					}
+				case *ast.IncDecStmt:
+					if (exprString(x.X) == lo && x.Tok != token.INC) || (exprString(x.X) == hi && x.Tok != token.DEC) {
+						okOnly = false
+					}
+				}
+				return true
+			})
+			if okOnly {
+				firstIdx, lastIdx = lo, hi+" - 1"
+				nonEmpty = lo + " < " + hi
+				frontStep, backStep = lo+"++", hi+"--"
+			}
+		}
+	}
+	firstEl, lastEl := sliceVar+"["+firstIdx+"]", sliceVar+"["+lastIdx+"]"
 	// trimming loops
 	front, back := false, false
 	for _, s := range reduce.List {
 		fs, ok := s.(*ast.ForStmt)
-		if !ok || fs.Cond == nil || len(fs.Body.List) != 1 {
+		if !ok || fs.Cond == nil || len(fs.Body.List) != 1 || fs.Init != nil || fs.Post != nil {
 			continue
 		}
 		cs := exprString(fs.Cond)
-		as, ok := fs.Body.List[0].(*ast.AssignStmt)
-		if !ok {
-			continue
-		}
-		body := strings.Join(strings.Fields(nodeText(as)), " ")
-		if cs == "len("+sliceVar+") > 0 && "+sliceVar+"[0].Bounds.Empty" && body == sliceVar+" = "+sliceVar+"[1:]" {
+		body := strings.Join(strings.Fields(nodeText(fs.Body.List[0])), " ")
+		if cs == nonEmpty+" && "+firstEl+".Bounds.Empty" && body == frontStep {
 			front = true
 		}
-		if cs == "len("+sliceVar+") > 0 && "+sliceVar+"[len("+sliceVar+") - 1].Bounds.Empty" && body == sliceVar+" = "+sliceVar+"[:len("+sliceVar+") - 1]" {
+		if cs == nonEmpty+" && "+lastEl+".Bounds.Empty" && body == backStep {
 			back = true
 		}
 	}
@@ -684,18 +846,18 @@ func ruleBND2(c *Ctx) {
 	var boundsVar string
 	for _, s := range reduce.List {
 		ifs, ok := s.(*ast.IfStmt)
-		if !ok || exprString(ifs.Cond) != "len("+sliceVar+") > 0" {
+		if !ok || exprString(ifs.Cond) != nonEmpty {
 			continue
 		}
 		b, e := false, false
 		for _, st := range ifs.Body.List {
 			if as, ok := st.(*ast.AssignStmt); ok && len(as.Lhs) == 1 {
 				l, r := exprString(as.Lhs[0]), exprString(as.Rhs[0])
-				if strings.HasSuffix(l, ".Begin") && r == sliceVar+"[0].Bounds.Begin" {
+				if strings.HasSuffix(l, ".Begin") && r == firstEl+".Bounds.Begin" {
 					b = true
 					boundsVar = strings.TrimSuffix(l, ".Begin")
 				}
-				if strings.HasSuffix(l, ".End") && r == sliceVar+"[len("+sliceVar+") - 1].Bounds.End" {
+				if strings.HasSuffix(l, ".End") && r == lastEl+".Bounds.End" {
 					e = true
 				}
 			}
@@ -733,13 +895,13 @@ func ruleBND2(c *Ctx) {
 			resVar = exprString(as.Lhs[0])
 		}
 		facts := pathConds(info, parents(reduce), cb)
-		nonEmpty := holds(facts, func(e ast.Expr, pos bool) bool {
+		isNonEmpty := holds(facts, func(e ast.Expr, pos bool) bool {
 			if !pos && exprString(e) == boundsVar+".Empty" {
 				return true
 			}
-			return pos && exprString(e) == "len("+sliceVar+") > 0"
+			return pos && exprString(e) == nonEmpty
 		})
-		okCb = nonEmpty && exprString(cb.Args[0]) == resVar && exprString(cb.Args[1]) == boundsVar+".Begin" && exprString(cb.Args[2]) == boundsVar+".End"
+		okCb = isNonEmpty && exprString(cb.Args[0]) == resVar && exprString(cb.Args[1]) == boundsVar+".Begin" && exprString(cb.Args[2]) == boundsVar+".End"
 	}
 	_ = cbIf
 	c.check(okCb, rule, "template/parse/reduce/callback", ti.Pos(reduce.Pos()), "_onBounds(res, Begin, End) is called exactly once, after the action, only when the span is non-empty", "_onBounds is not called exactly once after the action under `!bounds.Empty` with (result, Begin, End)")
@@ -811,13 +973,10 @@ func ruleBND3(c *Ctx) {
 	}
 	info := ti.Info
 	inRegion := func(n ast.Node) bool {
-		tmpl := ti.TmplOf(n.Pos())
-		f := ti.Files[tmpl]
-		if f == nil {
+		tmpl, s, e, ok := ti.span(n)
+		if !ok {
 			return false
 		}
-		base := ti.Fset.File(f.Pos()).Base()
-		s, e := int(n.Pos())-base, int(n.End())-base
 		for _, r := range ti.Regions {
 			if r.Tmpl == tmpl && r.Start <= s && e <= r.End {
 				return true
@@ -914,4 +1073,160 @@ func ruleBND3(c *Ctx) {
 	if nStmts < 8 {
 		c.unres(rule, "template/bounds-blocks/floor", "", "only %d statements found inside the feature-switched regions", nStmts)
 	}
+}
+
+// enclosingBlock returns the innermost block statement containing n.
+func enclosingBlock(par map[ast.Node]ast.Node, n ast.Node) *ast.BlockStmt {
+	for q := par[n]; q != nil; q = par[q] {
+		if b, ok := q.(*ast.BlockStmt); ok {
+			return b
+		}
+	}
+	return nil
+}
+
+// paramIndex: e names a parameter of fd; returns its position, or -1.
+func paramIndex(info *types.Info, fd *ast.FuncDecl, e ast.Expr) int {
+	id, ok := ast.Unparen(e).(*ast.Ident)
+	if !ok || fd.Type.Params == nil {
+		return -1
+	}
+	o := info.Uses[id]
+	i := 0
+	for _, f := range fd.Type.Params.List {
+		for _, nm := range f.Names {
+			if info.Defs[nm] == o && o != nil {
+				return i
+			}
+			i++
+		}
+		if len(f.Names) == 0 {
+			i++
+		}
+	}
+	return -1
+}
+
+// tiFuncDecls maps the functions declared in the template instance to their declarations.
+func tiFuncDecls(ti *TmplInstance) map[*types.Func]*ast.FuncDecl {
+	out := map[*types.Func]*ast.FuncDecl{}
+	for _, f := range ti.AllFiles {
+		for _, d := range f.Decls {
+			if fd, ok := d.(*ast.FuncDecl); ok && fd.Body != nil {
+				if fn, ok := ti.Info.Defs[fd.Name].(*types.Func); ok {
+					out[fn] = fd
+				}
+			}
+		}
+	}
+	return out
+}
+
+// tiScope returns fd and, up to depth, the template functions it calls.
+func tiScope(ti *TmplInstance, fd *ast.FuncDecl, depth int) []*ast.FuncDecl {
+	decls := tiFuncDecls(ti)
+	out := []*ast.FuncDecl{fd}
+	seen := map[*ast.FuncDecl]bool{fd: true}
+	level := []*ast.FuncDecl{fd}
+	for d := 0; d < depth; d++ {
+		var next []*ast.FuncDecl
+		for _, cur := range level {
+			ast.Inspect(cur.Body, func(n ast.Node) bool {
+				if call, ok := n.(*ast.CallExpr); ok {
+					if fn := calleeFunc(ti.Info, call); fn != nil {
+						if h := decls[fn.Origin()]; h != nil && !seen[h] {
+							seen[h] = true
+							out = append(out, h)
+							next = append(next, h)
+						}
+					}
+				}
+				return true
+			})
+		}
+		level = next
+	}
+	return out
+}
+
+// pairAssign is one `lhs = rhs` of a straight-line statement list, with calls to straight-line
+// template helpers expanded (their parameters replaced by the actual arguments). afterLa/afterSym
+// tell whether _la/_lasym had already been overwritten when the right-hand side was evaluated
+// (the operands of one tuple assignment are all evaluated before any of its stores).
+type pairAssign struct {
+	lhs, rhs          ast.Expr
+	afterLa, afterSym bool
+}
+
+func straightLineAssigns(ti *TmplInstance, stmts []ast.Stmt) []pairAssign {
+	info := ti.Info
+	decls := tiFuncDecls(ti)
+	var out []pairAssign
+	wroteLa, wroteSym := false, false
+	var walk func(list []ast.Stmt, subst map[types.Object]ast.Expr, depth int)
+	sub := func(e ast.Expr, subst map[types.Object]ast.Expr) ast.Expr {
+		if id, ok := ast.Unparen(e).(*ast.Ident); ok && subst != nil {
+			if a, ok := subst[info.Uses[id]]; ok {
+				return a
+			}
+		}
+		return e
+	}
+	walk = func(list []ast.Stmt, subst map[types.Object]ast.Expr, depth int) {
+		for _, st := range list {
+			switch x := st.(type) {
+			case *ast.AssignStmt:
+				if len(x.Lhs) != len(x.Rhs) {
+					continue
+				}
+				preLa, preSym := wroteLa, wroteSym
+				for i := range x.Lhs {
+					out = append(out, pairAssign{x.Lhs[i], sub(x.Rhs[i], subst), preLa, preSym})
+					if fieldNamed(info, x.Lhs[i], "_la") {
+						wroteLa = true
+					}
+					if fieldNamed(info, x.Lhs[i], "_lasym") {
+						wroteSym = true
+					}
+				}
+			case *ast.ExprStmt:
+				call, ok := x.X.(*ast.CallExpr)
+				if !ok || depth >= 2 {
+					continue
+				}
+				fn := calleeFunc(info, call)
+				if fn == nil {
+					continue
+				}
+				h := decls[fn.Origin()]
+				if h == nil {
+					continue
+				}
+				straight := true
+				for _, hs := range h.Body.List {
+					switch hs.(type) {
+					case *ast.AssignStmt, *ast.ExprStmt:
+					default:
+						straight = false
+					}
+				}
+				if !straight {
+					continue
+				}
+				m := map[types.Object]ast.Expr{}
+				i := 0
+				for _, f := range h.Type.Params.List {
+					for _, nm := range f.Names {
+						if i < len(call.Args) {
+							m[info.Defs[nm]] = sub(call.Args[i], subst)
+						}
+						i++
+					}
+				}
+				walk(h.Body.List, m, depth+1)
+			}
+		}
+	}
+	walk(stmts, nil, 0)
+	return out
 }
